@@ -10,10 +10,8 @@ import (
 	"testing"
 
 	"github.com/gotid/god/internal/verifc01"
-	"github.com/gotid/god/lib/breaker"
+	"github.com/gotid/god/internal/verifc01/grpcerr"
 	"google.golang.org/grpc"
-	gcodes "google.golang.org/grpc/codes"
-	"google.golang.org/grpc/status"
 )
 
 type c01ServerTarget struct{ prefix string }
@@ -21,7 +19,7 @@ type c01ServerTarget struct{ prefix string }
 func (t *c01ServerTarget) Disable(string) { panic("c01 server driver: disable is not part of the integration table") }
 
 func (t *c01ServerTarget) Do(name string, c verifc01.Call) (o verifc01.Obs) {
-	want := status.Error(gcodes.Code(c.N), "c01") // nil for OK
+	want := grpcerr.Want(c) // the row's error value (status / wrapped / plain / context / foreign), nil for OK
 	var err error
 	switch c.Api {
 	case "grpc_unary":
@@ -44,14 +42,7 @@ func (t *c01ServerTarget) Do(name string, c verifc01.Call) (o verifc01.Obs) {
 	default:
 		panic("c01 server driver: unknown api " + c.Api)
 	}
-	switch {
-	case err == breaker.ErrServiceUnavailable:
-		o.Ret = "unavail"
-	case err != want:
-		o.Ret = fmt.Sprintf("other:%v", err)
-	default:
-		o.Ret = status.Code(err).String()
-	}
+	o.Ret = grpcerr.Label(err, want)
 	return
 }
 
